@@ -252,6 +252,22 @@ def run(case):
                         fails.append(f"footprint is {np.unique(fpa[foot == 0]).tolist()[:3]} (not zero) where the source has no coverage")
         if not (np.array_equal(before[0], np.asarray(cube.data)) and before[1] == cube.meta and before[2] == cube.unit):
             fails.append("the source cube changed")
+        # a header is read when it is given: the same header object edited in place and given again is another target
+        if case["as"] == "header" and not fails and case["crpix_seed"] % 2 == 0:
+            try:
+                target["CRPIX1"] = float(target["CRPIX1"]) + 1.0
+                t2 = WCS(header=dict(target)) if not hasattr(target, "cards") else WCS(header=target.copy())
+                out2 = cube.reproject_to(target, **kw)
+                out2 = out2[0] if isinstance(out2, tuple) else out2
+                o2 = out2.wcs.low_level_wcs
+                p = [0.5] * nd
+                a = np.asarray(np.atleast_1d(o2.pixel_to_world_values(*p)), dtype=float)
+                b = np.asarray(np.atleast_1d(t2.pixel_to_world_values(*p)), dtype=float)
+                if not np.allclose(a, b, rtol=1e-12, equal_nan=True):
+                    fails.append("the same header object edited in place (CRPIX1 + 1) and given again: the result's wcs is not the edited target")
+                tags.append("header-edited-in-place")
+            except Exception as e:
+                fails.append(f"second call with the header edited in place raised {type(e).__name__}: {str(e)[:100]}")
         res["obs_vals"] = got.tolist() if case["kind"] in ("same", "shift") and case["algo"] == "interpolation" else None
     res["obs"] = {"status": status, "shape": None if (status != "ok" or not hasattr(out, "data")) else list(np.asarray(out.data).shape)}
     res["model_req"] = {"op": "reproject", "algo": case["algo"], "srcTypes": src_types, "tgtTypes": tgt_types,
